@@ -151,6 +151,7 @@ def standard(ctx, props, sub, label, extra_args=(), lists=("M",), timeout=3000,
                 if unexpected:
                     ctx.violations.append({
                         "kind": violation_kind or ("coq-correspondence:" + label + ":" + name),
+                        "static": True,
                         "sig": "%s %s ids=%s seed=%s" % (label, name, unexpected[:20], ctx.seed),
                         "detail": {"case_file": "re-run with --keep to inspect", "failing_case_ids": unexpected[:200],
                                    "list": name, "harness": sub, "seed": ctx.seed,
